@@ -200,7 +200,7 @@ impl Check for C06 {
             withhold_imports: false,
             linked_promises: false,
             host_activity_pm: 0,
-            internal_sources: Default::default(), stale_answer_ids: Vec::new(),
+            internal_sources: Default::default(), stale_answer_ids: Vec::new(), stub_then_real: false,
         };
         let mut run = Run::new(spec);
         let mut stopped_by: Option<&str> = None;
@@ -269,7 +269,7 @@ impl Check for C06 {
                     withhold_imports: false,
                     linked_promises: false,
                     host_activity_pm: 0,
-                    internal_sources: Default::default(), stale_answer_ids: Vec::new(),
+                    internal_sources: Default::default(), stale_answer_ids: Vec::new(), stub_then_real: false,
                 },
             );
             if follow.result != "complete:10" {
